@@ -7,7 +7,7 @@ git -C /repo worktree remove --force $WT >/dev/null 2>&1
 git -C /repo worktree add --detach $WT HEAD >/dev/null 2>&1 || { echo "worktree failed"; exit 9; }
 if ! git -C $WT apply --check "$PATCH" 2>/dev/null; then echo "PATCH DOES NOT APPLY to current /repo HEAD"; git -C /repo worktree remove --force $WT; exit 8; fi
 git -C $WT apply "$PATCH"
-cd "$(dirname "$0")/.." && VERIF_REPO=$WT ./check "$ID" --tier "$TIER" > /tmp/try_seed_keep_$NAME.log 2>&1
+cd "$(dirname "$0")/.." && VERIF_EVIDENCE_DIR=/tmp/seed_evidence VERIF_REPO=$WT ./check "$ID" --tier "$TIER" > /tmp/try_seed_keep_$NAME.log 2>&1
 rc=$?
 git -C /repo worktree remove --force $WT
 grep -c "^VIOLATION" /tmp/try_seed_keep_$NAME.log | sed "s/^/violation lines: /"
